@@ -10,7 +10,7 @@ PROP = {'areas': [{'area': 'engine',
                        'corpus/engine/d9_connack_before_connect_flushed.script'],
             'extra': ['100'],
             'only_prop': 'C14',
-            'quick': 4000,
+            'quick': 12000,
             'thorough': 2000000,
             'tie_fields': ['nst', 'out', 'outcome', 'pingto', 'nping', 'st']}],
  'coq_target': 'Properties/C14.vo',
